@@ -14,10 +14,16 @@ def fn():
     C.reset_state()
     neg = C.session()
     a = [ctx.byte('a[%d]'%i) for i in range(4)]
-    ctx.assume(a[1] == 11); ctx.assume(a[2]==0); ctx.assume(a[3]==0)
     items = [0, 0] + C.be(4, 2) + a + [24, 10, 0, 0]
     body = C.K.mk(ctx, items)
     msg = Message.unpack(2, body, neg)
     at = msg.data.attributes
-    return ('keys', [int(k) for k in at._data.keys()])
-eng.explore(fn, 100, 60, lambda e,o: print('path', o, e.model_dict()))
+    k0=[int(k) for k in at._data.keys()]
+    sh=C.force(msg, neg)
+    return ('before', k0, 'shape', sh, 'after', [int(k) for k in at._data.keys()])
+def onp(e, o):
+    m = e.model_dict()
+    if o[0] != 'ok' or (m.get('a[0]',0) & 0x40 and not o[1][1]) :
+        print('path', o, m, len(e.trace), [str(x)[:150] for x in e.trace[:14]])
+eng.explore(fn, 3000, 100, onp)
+print('paths', eng.paths)
